@@ -553,6 +553,21 @@ func (n *NN) nonNil(v ssa.Value, seen map[ssa.Value]bool) (bool, string) {
 			return n.cellNonNil(a, x, seen)
 		case *ssa.FieldAddr:
 			f := nnFieldName(a)
+			// assigned a non-nil value just before, in the same block, with no call in between
+			if blk := x.Block(); blk != nil {
+				idx := instrIndex(x)
+				for i := idx - 1; i >= 0; i-- {
+					in := blk.Instrs[i]
+					if _, isCall := in.(ssa.CallInstruction); isCall {
+						break
+					}
+					if st, ok := in.(*ssa.Store); ok {
+						if fa2, ok := st.Addr.(*ssa.FieldAddr); ok && fa2.X == a.X && fa2.Field == a.Field {
+							return n.nonNil(st.Val, seen)
+						}
+					}
+				}
+			}
 			if why, bad := n.fieldBad[f]; bad {
 				return false, "field " + f + ": " + why
 			}
